@@ -130,6 +130,10 @@ FIXED = [
     ("fix: a row-set that can not be opened is isolated", "C18", "any byte of 0_3/0.idx altered: Database::new_on_disk panicked, table b (not affected) unreadable too (3 648 enumerated cases, the known finding KF-C18-database-does-not-open_idx until repaired)"),
     ("fix: a left or full outer merge join is not ordered", "C01", "db pkpk:mix:mix, disk: `select t2.a, t2.c, t1.a from t2 left join t1 on t2.a = t1.a order by t1.a` came back unsorted with the optimizer (sort removed above a LEFT/FULL OUTER merge join; 18 cases)"),
     ("fix: a plan class is ordered only by what all", "C01", "db pkpk:dup:high, disk, statistics t1big: `.. from t2 right join t1 on t2.a = t1.a order by t1.a` unsorted: the sort was removed because the class contains a merge join, the hash join was extracted (4 cases; hazard pointed out by a seeding agent)"),
+    ("fix: a sorted scan merges row-sets by the primary key even when the key is not selected", "C12", "disk, t(a int primary key, b int, c int), two inserts with interleaved keys: `select b from t order by a` returned the row-sets concatenated (the optimizer drops the ORDER BY of a key-ordered scan, column pruning drops the key, the scan fell back to concatenation); pointed out by a seeding agent; also C01, C02"),
+    ("fix: a window function above ORDER BY or DISTINCT keeps its value", "C01", "`select a, row_number() over (order by a) from t order by b` returned NULLs (optimizer on) / the argument column instead of the window value: pushdown-proj-order pruned the window output below the Order node; pointed out by a seeding agent"),
+    ("fix: rewrites that drop or add an INT literal keep the data type", "C17", "`select si + 0 from n` (si SMALLINT): optimized plan returns SMALLINT where the bound query declares INT (output schema changed); a view created from it panicked downstream operators; pointed out by a seeding agent; also C16"),
+    ("fix: the window operator skips an empty input chunk", "C17", "db plain:nul:nul on disk: `select b, count(a) over () from t1 where b > 0 order by b limit 3` panicked in window.rs (unwrap of an empty chunk builder)"),
     ("fix: a DOUBLE that is infinite, NaN or beyond the range of DECIMAL", "C14", "table fd(d double, e decimal): `select i, d > e from fd` with d = 1e300 panicked (Decimal::from_f64_retain(..).unwrap()), likewise `cast(d * d as decimal)`; pointed out by a seeding agent"),
     ("fix: nullable block iterator keeps the validity", "C06", "int16 nullable plain, block 32, 81-row pattern, script [next(1), next(7)]: a batch spanning a block boundary lost rows / reported wrong row ids (155 050 cases)"),
 ]
